@@ -59,8 +59,15 @@ def run(ctx):
         rng = c.args[1] if len(c.args) > 1 else None
         ctx.check(rng is not None and rng[0] == "param" and rng[2] == "rng", "shuffle", tag + "|generator", c.loc(), "the shuffle draws from the step's generator parameter",
                   "the shuffle draws from %s" % (render(rng) if rng else "?"))
-        ctx.check(not c.guards and not q.cfg.in_loop(c.b) and q.body.dominates(c.b, s.head), "shuffle", tag + "|unconditional", c.loc(),
-                  "the shuffle is unconditional and dominates the processing loop", "the shuffle is conditional on [%s] or does not dominate the loop" % c.gtext())
+        from .stepmodel import benign_batch_guard
+        real = [a for a in c.guards if not benign_batch_guard(a, s.T, for_shuffle=True)]
+        # with a benign emptiness guard the shuffle need not dominate the loop head, but every path that enters the loop body
+        # with a non-empty batch passes it: the loop is under the same guard or the shuffle dominates the loop
+        dom = q.body.dominates(c.b, s.head) or (len(c.guards) > 0 and not real and all(
+            any(benign_batch_guard(a, s.T, for_shuffle=False) for a in x.guards) or q.body.dominates(c.b, x.b) for x in [s.loop_next]))
+        ctx.check(not real and not q.cfg.in_loop(c.b) and dom, "shuffle", tag + "|unconditional", c.loc(),
+                  "the shuffle runs whenever there is something to shuffle (conditions: %s) and precedes the processing loop" % (c.gtext() or "none"),
+                  "the shuffle is conditional on [%s] or does not dominate the loop" % c.gtext())
         ctx.check(q.cfg.strictly_after(s.take.b, c.b), "shuffle", tag + "|after-take", c.loc(), "the shuffle happens after the batch is taken")
         # nothing reorders/drops between the shuffle and the end of the loop
         region = q.cfg.reach_from(c.b) if True else set()
